@@ -39,6 +39,15 @@ func generate(w *mon.W) {
 	rng := gen.RNG(w.Seed, "c11")
 	g := &gen.Syn{Rng: rng}
 	n := w.Pick(15_000, 300_000)
+	for _, kind := range gen.WideKinds {
+		for _, sz := range gen.WideSizes {
+			if sz > 130 && w.Quick() {
+				continue
+			}
+			c := &Case{Prog: gen.Wide(kind, sz)}
+			w.Do(fmt.Sprint("wide|", kind, "|", sz), func(r *mon.R) { Check(c, r) })
+		}
+	}
 	var corpus []string
 	for i := 0; i < n && !w.Stopped(); i++ {
 		prog := gen.SynProgram(g, i)
